@@ -232,7 +232,23 @@ func (vc *VC) rangeVar(x *ssa.Range) (string, string, *types.Map) {
 	return "rng_" + x.Name(), "(Array " + ks + " Bool)", mt
 }
 
+// Range over a string: a ghost byte position belongs to the Range instruction; Next decodes the
+// rune at that position as RFC 3629 prescribes (utf8_rune / utf8_size of the prelude: an invalid
+// byte yields U+FFFD and advances by one) and yields (position, rune), or reports exhaustion when
+// the position has reached the length.
+func (vc *VC) strRangeVar(x *ssa.Range) (string, bool) {
+	if b, ok := types.Unalias(x.X.Type()).Underlying().(*types.Basic); ok && b.Info()&types.IsString != 0 {
+		return "rngpos_" + x.Name(), true
+	}
+	return "", false
+}
+
 func (vc *VC) rangeStart(st *State, x *ssa.Range, guard string) {
+	if pv, ok := vc.strRangeVar(x); ok {
+		vc.set(st, pv, "Int", "0")
+		vc.vals[x] = vc.val(x.X)
+		return
+	}
 	name, sortName, mt := vc.rangeVar(x)
 	if mt == nil {
 		vc.unsupported(st, x, guard)
@@ -245,7 +261,26 @@ func (vc *VC) rangeStart(st *State, x *ssa.Range, guard string) {
 
 func (vc *VC) rangeNext(st *State, x *ssa.Next, guard string) {
 	rg, ok := x.Iter.(*ssa.Range)
-	if !ok || x.IsString {
+	if !ok {
+		vc.unsupported(st, x, guard)
+		return
+	}
+	if pv, isStr := vc.strRangeVar(rg); isStr && x.IsString {
+		s := vc.vals[rg]
+		vc.P.prelude.use(vc, "utf8_size")
+		pos := vc.get(st, pv, "Int")
+		okc := vc.fresh("next_ok", "Bool")
+		vc.assume(sx("=", okc, sx("<", pos, sx("slen", s.S))))
+		k := vc.fresh("next_i", "Int")
+		vc.assume(sx("=", k, pos))
+		r := vc.fresh("next_r", "Int")
+		vc.assume(implies(okc, sx("=", r, sx("utf8_rune", s.S, pos))))
+		vc.assume(vc.ss().typeInv(types.Typ[types.Int32], r, 0))
+		vc.set(st, pv, "Int", sx("ite", okc, sx("+", pos, sx("utf8_size", s.S, pos)), pos))
+		vc.tuples[x] = []Term{{S: okc, Sort: "Bool", T: types.Typ[types.Bool]}, {S: k, Sort: "Int", T: types.Typ[types.Int]}, {S: r, Sort: "Int", T: types.Typ[types.Int32]}}
+		return
+	}
+	if x.IsString {
 		vc.unsupported(st, x, guard)
 		return
 	}
